@@ -183,6 +183,8 @@ MUTANTS = [
     ('limits', EVALRS, '        let res = self.with_call_stack(Value::new_none(), None, |this| {\n            function.invoke(&params, this)\n        });', '        self.call_stack.push(Value::new_none(), None)?;\n        let res = function.invoke(&params, self);\n        if res.is_ok() {\n            self.call_stack.pop();\n        }', 'eval_function'),
     ('bcstop', BCW, '        for depth in (0..self.for_loops.len()).rev() {\n            let iter = self.for_loops[depth].iter;\n            self.write_instr::<InstrIterStop>(span, iter);\n        }', '        if let Some(for_loop) = self.for_loops.last() {\n            let iter = for_loop.iter;\n            self.write_instr::<InstrIterStop>(span, iter);\n        }', 'C12.bc.iter_stop.all_open_loops'),
     ('bcstop', BCW, '        for depth in (0..self.for_loops.len()).rev() {', '        for depth in (1..self.for_loops.len()).rev() {', 'write_iter_stop'),
+    ('int', 'starlark/src/values/types/int/pointer_i32.rs', 'Ok(heap.alloc(StarlarkInt::from(&self.to_bigint() | b.get())))', 'Ok(heap.alloc(StarlarkInt::from(&self.to_bigint() ^ b.get())))', 'C10.value.small.bit_or'),
+    ('limits', EVALRS, '        let names = named.map(|(s, _)| (Symbol::new(s), self.heap().alloc_str(s)));', '        self.infrequent_instr_check_counter = 0;\n        let names = named.map(|(s, _)| (Symbol::new(s), self.heap().alloc_str(s)));', 'C15.eval_function.ticks_accumulate'),
     ('calls', INSTR, '        eval.with_call_stack(self.to_value(), Some(location), |eval| {\n            self.invoke(args, eval)\n        })', '        self.invoke(args, eval)', 'bc_invoke'),
     ('calls', 'starlark/src/values/layout/value.rs', '        eval.with_call_stack(self, location, |eval| {\n            self.get_ref_full().invoke(args, eval)\n        })', '        self.get_ref_full().invoke(args, eval)', 'invoke_with_loc'),
     ('strindex', STRT, 'let ind = CharIndex(i.unsigned_abs() as usize);', 'let ind = CharIndex((-i) as usize);', 'at'),
